@@ -24,6 +24,33 @@ inductive Expr
   | mul (a b : Expr)
   | div (a b : Expr)
   | pow (e : Expr) (n : Nat)
+  | comp (g : Fn) (e : Expr)      -- `g(self.domain) * <functional>` = composition `g ∘ e` (gradient table)
   deriving DecidableEq, Repr
+
+/-- Executable reading at `Float` (the driver compares it with the values computed by the real
+code); the reading over `ℝ` used by the theorems is `Fn.real` / `Expr.eval` in
+`Lemmas/UfuncDeriv.lean`, clause by clause the same. -/
+def Fn.float : Fn → Float → Float
+  | .sin => Float.sin | .cos => Float.cos | .tan => Float.tan | .sqrt => Float.sqrt
+  | .square => fun t => t * t | .log => Float.log | .exp => Float.exp
+  | .reciprocal => fun t => 1.0 / t | .sinh => Float.sinh | .cosh => Float.cosh
+
+def Expr.evalF (f : Fn) (t : Float) : Expr → Float
+  | .pt => t
+  | .self => f.float t
+  | .app g => g.float t
+  | .const n d => Float.ofInt n / Float.ofNat d
+  | .neg e => - e.evalF f t
+  | .add a b => a.evalF f t + b.evalF f t
+  | .mul a b => a.evalF f t * b.evalF f t
+  | .div a b => a.evalF f t / b.evalF f t
+  | .pow e n => (List.replicate n (e.evalF f t)).foldl (· * ·) 1.0
+  | .comp g e => g.float (e.evalF f t)
+
+def Fn.ofName? : String → Option Fn
+  | "sin" => some .sin | "cos" => some .cos | "tan" => some .tan | "sqrt" => some .sqrt
+  | "square" => some .square | "log" => some .log | "exp" => some .exp
+  | "reciprocal" => some .reciprocal | "sinh" => some .sinh | "cosh" => some .cosh
+  | _ => none
 
 end OdlModel.UfuncDeriv
